@@ -205,7 +205,7 @@ func (c *Collector) Guard(test string, h *History) {
 		panic(r) // rejected draw, not a case
 	}
 	c.Case(h)
-	if _, isRT := r.(runtime.Error); isRT {
+	if _, isRT := r.(runtime.Error); isRT || typ == "chainkit.HarnessError" {
 		// a Go runtime error can only come from the harness itself (contracts run
 		// inside the VM): that is a broken check, never a violation of the property.
 		c.Count("harness-runtime-error", 1)
